@@ -10,16 +10,19 @@ Require Import TL.Model.Core TL.Model.Build TL.Proofs.BuildLemmas.
 Require Import TL.Model.CtxBridge TL.Proofs.CtxBridge.
 
 (* Core annotations with Build's is_ref / unwrap / fref (made total: fref_tot), evaluate (names_ty r k = "r evaluates to
-   k") and ty_eqb are a key family in the sense of C16: every law holds, none fails. *)
-Theorem C16B_key_laws : key_laws ty ty_eqb is_ref unwrap fref_tot names_ty.
+   k") and ty_eqb are a key family in the sense of C16: every law holds, none fails.
+   inspection.unwrap goes through the alias objects of the environment (Build.unwrap E: `type N = ...` peeled,
+   a string-valued alias replaced by the reference to its text), so there is one family per environment E; the laws
+   hold for every E, recursive aliases included (unwrap is idempotent: BuildLemmas.unwrap_idem). *)
+Theorem C16B_key_laws : forall E : env, key_laws ty ty_eqb is_ref (unwrap E) fref_tot names_ty.
 Proof. exact ty_key_laws. Qed.
 
 (* Build's pure lookup IS C16's specification lookup on the dict the context denotes (all contexts, overwrites
    included: ctx_set shadows, dict.__setitem__ replaces), for contexts whose reference keys are ones
    refs.forwardref can build (keys_wf, computable). *)
-Theorem C16B_getitem_is_spec_lookup : forall (cx : ctx) (k : ty),
+Theorem C16B_getitem_is_spec_lookup : forall (E : env) (cx : ctx) (k : ty),
   keys_wf cx = true ->
-  getitem cx k = match cspec_lookup (state_of cx) k with Some r => Core.Ok r | None => Core.Raise EKey end.
+  getitem E cx k = match cspec_lookup E (state_of cx) k with Some r => Core.Ok r | None => Core.Raise EKey end.
 Proof. exact getitem_spec. Qed.
 
 (* What the scan of the repaired __missing__ (a stored reference that EVALUATES to the key, whatever module it was
@@ -28,7 +31,7 @@ Proof. exact getitem_spec. Qed.
    forwardref(k) itself, which the step before has just missed.  Build.getitem (unchanged: three routes) therefore
    still IS the specification lookup with its fourth route; before the repair it was the real class that was narrower
    than Build.v (it missed the reference written in an importing module, which Build.v cannot tell apart). *)
-Theorem C16B_scan_adds_nothing : forall (S : cst) (cx : ctx) (k : ty),
+Theorem C16B_scan_adds_nothing : forall (E : env) (S : cst) (cx : ctx) (k : ty),
   (forall k', cfind S k' = find_key k' cx) -> keys_wf cx = true -> find_key (fref_tot k) cx = None ->
   Ctx.first_named ty routine is_ref names_ty S k = None.
 Proof. exact no_foreign. Qed.
@@ -36,22 +39,22 @@ Proof. exact no_foreign. Qed.
 (* After ANY history allowed by C16's ops_ok (insertions of fresh keys, lookups, `in`; lookups of the real class
    write memo entries), context[k] on the real class's model shows exactly what Build's getitem computes on the
    context holding the history's insertions: the value, or KeyError. *)
-Theorem C16B_item : forall (fuel : nat) (ops : list cop) (k : ty),
-  1 <= fuel -> cops_ok [] ops = true -> keys_wf (ctx_of ops []) = true ->
-  crun fuel [] (ops ++ [OItem k]) = cspec_run [] ops ++ [out_item (getitem (ctx_of ops []) k)].
+Theorem C16B_item : forall (E : env) (fuel : nat) (ops : list cop) (k : ty),
+  1 <= fuel -> cops_ok E [] ops = true -> keys_wf (ctx_of ops []) = true ->
+  crun E fuel [] (ops ++ [OItem k]) = cspec_run E [] ops ++ [out_item (getitem E (ctx_of ops []) k)].
 Proof. exact run_item_is_getitem. Qed.
 
 (* context.get(k, d) likewise is Build's ctx_get with the default *)
-Theorem C16B_get : forall (fuel : nat) (ops : list cop) (k : ty) (d : routine),
-  1 <= fuel -> cops_ok [] ops = true -> keys_wf (ctx_of ops []) = true ->
-  crun fuel [] (ops ++ [OGet k d]) = cspec_run [] ops ++ [out_get (ctx_get (ctx_of ops []) k) d].
+Theorem C16B_get : forall (E : env) (fuel : nat) (ops : list cop) (k : ty) (d : routine),
+  1 <= fuel -> cops_ok E [] ops = true -> keys_wf (ctx_of ops []) = true ->
+  crun E fuel [] (ops ++ [OGet k d]) = cspec_run E [] ops ++ [out_get (ctx_get E (ctx_of ops []) k) d].
 Proof. exact run_get_is_ctx_get. Qed.
 
 (* the same as two equivalences, for a context given as the list of its ctx_sets (each ctx_set k r = OSet k r) *)
-Theorem C16B_getitem_iff : forall (fuel : nat) (cx : ctx) (k : ty) (r : routine),
-  1 <= fuel -> cops_ok [] (sets_of cx) = true -> keys_wf cx = true ->
-  (getitem cx k = Core.Ok r <-> last (crun fuel [] (sets_of cx ++ [OItem k])) OOther = OVal r) /\
-  ((exists e, getitem cx k = Core.Raise e) <-> last (crun fuel [] (sets_of cx ++ [OItem k])) OOther = OKeyError).
+Theorem C16B_getitem_iff : forall (E : env) (fuel : nat) (cx : ctx) (k : ty) (r : routine),
+  1 <= fuel -> cops_ok E [] (sets_of cx) = true -> keys_wf cx = true ->
+  (getitem E cx k = Core.Ok r <-> last (crun E fuel [] (sets_of cx ++ [OItem k])) OOther = OVal r) /\
+  ((exists e, getitem E cx k = Core.Raise e) <-> last (crun E fuel [] (sets_of cx ++ [OItem k])) OOther = OKeyError).
 Proof. exact getitem_iff_run. Qed.
 
 (* The factory DOES overwrite keys (context[node.type] = ... for a key a deferred node stored before), which C16's
@@ -63,23 +66,24 @@ Theorem C16B_routes_any_history : forall (E : env) (dir : bool) (noop_leaf : nat
     (fuel : nat) (ops : list cop) (c : cst),
   st_ok E dir noop_leaf c ->
   (forall k v, In (OSet k v) ops -> routes E dir noop_leaf v k) ->
-  outs_route E dir noop_leaf ops (crun fuel c ops).
+  outs_route E dir noop_leaf ops (crun E fuel c ops).
 Proof. exact run_routes. Qed.
 
 (* ---- non-vacuity: a context with a NewType key, an alias key, a forward-reference key and a leaf ---- *)
+Definition xE0 : env := fun _ => None.
 Definition xNT : ty := TNewType 1 (TLeaf 0).
 Definition xAL : ty := TAlias 2 (TSeq KList (TLeaf 0)).
 Definition xcx : ctx :=
   [ (TRef 0, RDelayed (TRef 0)); (xAL, RSeq KList (RLeaf 0)); (xNT, RLeaf 0); (TLeaf 3, RLeaf 3) ].
 Example C16B_hyps_satisfiable :
-  cops_ok [] (sets_of xcx) = true /\ keys_wf xcx = true /\
+  cops_ok xE0 [] (sets_of xcx) = true /\ keys_wf xcx = true /\
   (* direct hits, the unwrap route (Final of a NewType of leaf 3), the reference route (the class named by TRef 0),
      a miss, a missed reference *)
-  crun 2 [] (sets_of xcx ++ [OItem xNT; OItem xAL; OItem (TRef 0); OItem (TFinal (TNewType 9 (TLeaf 3)));
+  crun xE0 2 [] (sets_of xcx ++ [OItem xNT; OItem xAL; OItem (TRef 0); OItem (TFinal (TNewType 9 (TLeaf 3)));
                               OItem (TName 0); OItem (TName 5); OItem (TRef 5)])
   = [OUnit; OUnit; OUnit; OUnit; OVal (RLeaf 0); OVal (RSeq KList (RLeaf 0)); OVal (RDelayed (TRef 0));
      OVal (RLeaf 3); OVal (RDelayed (TRef 0)); OKeyError; OKeyError] /\
-  map (getitem xcx) [xNT; xAL; TRef 0; TFinal (TNewType 9 (TLeaf 3)); TName 0; TName 5; TRef 5]
+  map (getitem xE0 xcx) [xNT; xAL; TRef 0; TFinal (TNewType 9 (TLeaf 3)); TName 0; TName 5; TRef 5]
   = [Core.Ok (RLeaf 0); Core.Ok (RSeq KList (RLeaf 0)); Core.Ok (RDelayed (TRef 0)); Core.Ok (RLeaf 3);
      Core.Ok (RDelayed (TRef 0)); Core.Raise EKey; Core.Raise EKey].
 Proof. vm_compute. repeat split. Qed.
@@ -94,9 +98,9 @@ Definition sProxy : routine := RDelayed (TName 0).
 Definition sReal : routine := RStruct 0 [].
 Definition sOps : list cop := [OSet sC sProxy; OItem sNT; OSet sC sReal].
 Theorem C16B_stale_memo :
-  cops_ok [] sOps = false /\
-  crun 2 [] (sOps ++ [OItem sNT]) = [OUnit; OVal sProxy; OUnit; OVal sProxy] /\
-  getitem (ctx_of sOps []) sNT = Core.Ok sReal.
+  cops_ok xE0 [] sOps = false /\
+  crun xE0 2 [] (sOps ++ [OItem sNT]) = [OUnit; OVal sProxy; OUnit; OVal sProxy] /\
+  getitem xE0 (ctx_of sOps []) sNT = Core.Ok sReal.
 Proof. vm_compute. repeat split. Qed.
 
 (* ---- what keys_wf excludes since the scan exists: a second spelling of a reference ------------------------ *)
@@ -104,8 +108,34 @@ Proof. vm_compute. repeat split. Qed.
    real class (scan) finds the value stored under it, Build's three-route getitem does not. *)
 Theorem C16B_second_spelling :
   keys_wf [(TRefTo (TName 0), RLeaf 3)] = false /\
-  crun 1 [] [OSet (TRefTo (TName 0)) (RLeaf 3); OItem (TName 0)] = [OUnit; OVal (RLeaf 3)] /\
-  getitem [(TRefTo (TName 0), RLeaf 3)] (TName 0) = Core.Raise EKey.
+  crun xE0 1 [] [OSet (TRefTo (TName 0)) (RLeaf 3); OItem (TName 0)] = [OUnit; OVal (RLeaf 3)] /\
+  getitem xE0 [(TRefTo (TName 0), RLeaf 3)] (TName 0) = Core.Raise EKey.
+Proof. vm_compute. repeat split. Qed.
+
+(* ---- alias objects of the environment in the key family ------------------------------------------------------ *)
+(* N8 is a value alias (`type N8 = list[int]`), N7 a recursive string-valued alias (`N7 = TypeAliasType("N7",
+   "list[N7] | None")`: its value is the reference to what the text evaluates to).  The context holds the entries
+   the factory stores for the nodes list[int] and N7 (type and unwrapped form).  Asking for the alias N8, or for a
+   NewType of it, goes the unwrap route THROUGH the alias object; asking for a NewType of N7 finds the proxy stored
+   under the reference N7 unwraps to.  Both models agree -- although keys_wf does not hold of this context: the
+   reference of a compound text is not one refs.forwardref builds from a NAMED object (fref = None), which is the
+   only thing keys_wf knows; C16B_getitem_is_spec_lookup is therefore not applicable to contexts holding the node
+   of a string-valued alias with a compound body, C16B_routes_any_history is (it has no such guard). *)
+Definition aBody : ty := TUnion [TSeq KList (TName 7); TNone].
+Definition aE : env := fun n => match n with
+  | 7 => Some (NType (TRefTo aBody)) | 8 => Some (NType (TSeq KList (TLeaf 0))) | _ => None end.
+Definition acx : ctx :=
+  [ (TRefTo aBody, RDelayed (TRefTo aBody)); (TName 7, RDelayed (TRefTo aBody));
+    (TSeq KList (TLeaf 0), RSeq KList (RLeaf 0)); (TLeaf 0, RLeaf 0) ].
+Example C16B_alias_objects :
+  unwrap aE (TName 8) = TSeq KList (TLeaf 0) /\ unwrap aE (TNewType 1 (TName 7)) = TRefTo aBody /\
+  keys_wf acx = false /\ keys_wf (skipn 2 acx) = true /\
+  crun aE 2 [] (sets_of acx ++ [OItem (TName 8); OItem (TNewType 3 (TName 8)); OItem (TNewType 1 (TName 7)); OItem (TName 9)])
+  = [OUnit; OUnit; OUnit; OUnit; OVal (RSeq KList (RLeaf 0)); OVal (RSeq KList (RLeaf 0)); OVal (RDelayed (TRefTo aBody)); OKeyError] /\
+  map (getitem aE acx) [TName 8; TNewType 3 (TName 8); TNewType 1 (TName 7); TName 9]
+  = [Core.Ok (RSeq KList (RLeaf 0)); Core.Ok (RSeq KList (RLeaf 0)); Core.Ok (RDelayed (TRefTo aBody)); Core.Raise EKey] /\
+  (* without the environment the alias name is opaque: the old, structural unwrap misses *)
+  getitem xE0 acx (TName 8) = Core.Raise EKey.
 Proof. vm_compute. repeat split. Qed.
 
 Print Assumptions C16B_key_laws.
